@@ -292,6 +292,13 @@ func (m *Monitors) betMonitors(c *Chain, o Op, res string, prev, cur *Snap) []st
 			}
 		} else if pm.Status != cm.Status && !(cm.Status == markettypes.MarketStatus_MARKET_STATUS_ACTIVE || cm.Status == markettypes.MarketStatus_MARKET_STATUS_INACTIVE || isResolved(cm.Status)) {
 			bad("C07", "market %d moved to status %d", uidNum(k), cm.Status)
+		} else if isResolved(cm.Status) {
+			// an open market is resolved only by a resolution ticket for that market, which also stamps the resolution time
+			if !(o.Kind == "MRES" && res == "ok" && marketUID(o.UID) == k) {
+				bad("C07", "market %d became resolved (status %d) by %s, not by a resolution", uidNum(k), cm.Status, o.Kind)
+			} else if cm.ResolutionTS == 0 {
+				bad("C07", "market %d resolved without a resolution time", uidNum(k))
+			}
 		}
 		pb, cb := prev.Books[k], cur.Books[k]
 		if cb.Status < pb.Status || cb.Status > pb.Status+2 || (cb.Status != pb.Status && o.Kind != "END") {
@@ -447,6 +454,23 @@ func (m *Monitors) betMonitors(c *Chain, o Op, res string, prev, cur *Snap) []st
 			checkDeltas("C03", "placement")
 		} else {
 			checkDeltas("C08", "failed wager")
+		}
+	case "SWAG":
+		if res == "ok" {
+			// C08 admission of a wager placed through the subaccount message
+			if cur.BetCount != prev.BetCount+1 {
+				bad("C08", "accepted subaccount wager did not get the next sequence number (count %d -> %d)", prev.BetCount, cur.BetCount)
+			}
+			if _, dup := prev.UID2ID[betUID(o.BetUID)]; dup {
+				bad("C08", "subaccount wager with an already used id %d was accepted", o.BetUID)
+			}
+			pm, okm := prev.Markets[marketUID(o.SelMkt)]
+			if !okm || pm.Status != markettypes.MarketStatus_MARKET_STATUS_ACTIVE || pm.EndTS < uint64(cur.Time) {
+				bad("C08", "subaccount wager accepted on a market that is missing, not active or past its end time")
+			}
+			if o.Amount.Cmp(prev.BetParams.Constraints.MinAmount.BigInt()) < 0 {
+				bad("C08", "subaccount wager of %s accepted below the minimum %s", o.Amount, prev.BetParams.Constraints.MinAmount)
+			}
 		}
 	case "DEP":
 		if res == "ok" {
